@@ -73,6 +73,9 @@ def compare(v, rr, mr):
     return None
 
 
+NEAR_POPS = 3
+
+
 def evaluate(ctx, b, lib, model_exe, n_pops, per_class):
     rng = ctx.rng
     sch = lib.schema
@@ -89,9 +92,11 @@ def evaluate(ctx, b, lib, model_exe, n_pops, per_class):
     pops = [W.gen_population(rng, sch, rng.randint(4, 9)) for _ in range(n_pops)]
     if "rf_e" in sch.by_name:
         pops.insert(0, W.ref_population(sch))       # references to complex instances through every part
-    for pop in pops:
+    for pk, pop in enumerate(pops):
         bases.append((pop, W.render_file(sch.name, pop)))
-        for v in W.violations(rng, sch, pop, per_class, string_delims=string_delims, missing_elem=missing_elem):
+        # every near-miss spelling of the grammar's productions (wave e): on the first populations of every schema
+        for v in W.violations(rng, sch, pop, per_class, string_delims=string_delims, missing_elem=missing_elem,
+                              near_miss=(pk < NEAR_POPS)):
             items.append((v, W.render_violation(sch.name, v), len(bases) - 1))
     files = []
     for k, (pop, text) in enumerate(bases):
@@ -168,6 +173,48 @@ def evaluate(ctx, b, lib, model_exe, n_pops, per_class):
             ctx.hist("model", "agrees")
 
 
+def evaluate_redecl(ctx, b, n_pops):
+    """violations at redeclared (explicitly narrowed) parameter positions - one and two levels of narrowing - judged by the
+    statement's oracle alone (the Lean model has the redefining attributes, the model driver's dictionary does not)"""
+    sch = W.redecl_schema()
+    lib = R.build_libs(b, ctx.work, [("rdc", sch)])[0]
+    rng = random.Random(f"C03-redecl:{ctx.seed}")
+    bases, items = [], []
+    for _ in range(n_pops):
+        pop = W.redecl_population(rng, sch)
+        bases.append((pop, W.render_file(sch.name, pop)))
+        for v in W.redecl_violations(rng, sch, pop):
+            items.append((v, W.render_violation(sch.name, v), len(bases) - 1))
+    files = []
+    for k, (pop, text) in enumerate(bases):
+        p = os.path.join(ctx.work, f"b-rdc-{k}.p21")
+        open(p, "w", encoding="latin-1").write(text)
+        files.append((p, len(pop) + 3))
+    for k, (v, text, bi) in enumerate(items):
+        p = os.path.join(ctx.work, f"v-rdc-{k}.p21")
+        open(p, "w", encoding="latin-1").write(text)
+        files.append((p, len(bases[bi][0]) + 3))
+    reals = R.run_real(b, lib, files, ctx.work, rewrite=False)
+    nb = len(bases)
+    for k, (pop, text) in enumerate(bases):
+        if reals[k].read.get("sev") != "NULL" or any(x[2] != "completeSE" for x in reals[k].insts):
+            ctx.broken.append(("generator", f"a population with redeclared attributes meant to conform is not read cleanly: {reals[k].read}\n{text[-1500:]}"))
+            return
+    stat = ctx.cov["correspondence"].setdefault(sch.name, {"conforming_files": len(bases), "violated_files": len(items),
+                                                             "oracle_failures": 0, "model_disagreements": "not compared"})
+    for k, (v, text, bi) in enumerate(items):
+        rr, base = reals[nb + k], reals[bi]
+        ctx.count(1, key=(sch.name, text))
+        ctx.hist("violation classes", v.cls)
+        ctx.hist("positions", v.detail.split(":")[0])
+        res = oracle(v, base, rr)
+        if res:
+            stat["oracle_failures"] += 1
+            ctx.violation(f"{res[0]}:{v.key()}", res[1] + " (the violation stands at a parameter position the instance's entity redeclares)",
+                          {"schema": lib.express, "file": text, "class": v.cls, "victim": v.victim,
+                           "not_claimed": sorted(v.skip_confine), "conforming_file": bases[bi][1]})
+
+
 def run(ctx):
     ctx.trusted += [
         "hand-written models lean/StepModel/IStream.lean, P21/Lex.lean, P21/Reader.lean (transliterations of the anchored C++), "
@@ -199,6 +246,7 @@ def run(ctx):
             if f.endswith(".json"):
                 ctx.hist("corpus", f)
                 replay_obj(ctx, b, json.load(open(os.path.join(cdir, f))))
+    evaluate_redecl(ctx, b, 2 if quick else 8)
     for lib in libs:
         evaluate(ctx, b, lib, model_exe, 8 if quick else 40, 1 if quick else 3)
         if any(n == "generator" for n, _ in ctx.broken):
@@ -208,7 +256,9 @@ def run(ctx):
                        "attribute, a value for a derived one, `$` for a required aggregate, dangling / wrong-type reference (attribute / aggregate element), "
                        "a STRING literal containing `)` `;` `,` where another scalar is expected (when the source re-synchronises such records), SELECT value outside the list (typed / reference), too few / too many parameters, unknown / abstract "
                        "keyword (simple / complex part), duplicate id, unterminated instance / string; at first / middle / "
-                       "last / only parameter positions, in simple and complex instances")
+                       "last / only parameter positions, in simple and complex instances; every class that applies at every explicitly "
+                       "redeclared (narrowed) position, one and two levels; every near-miss spelling of REAL / INTEGER / "
+                       "ENUMERATION / BOOLEAN / LOGICAL / BINARY (one mandatory element of the production dropped)")
 
 
 def replay(ctx, path):
